@@ -40,6 +40,7 @@ BUDGET = {'quick': 12, 'thorough': 120}
 # proposed known_findings.json keys (narrow classifiers in classify())
 K_WSGI_LINE = 'wsgi-bodiless-status-matched-by-full-line'
 K_MEDIA_CT = 'typeless-status-media-sets-content-type'
+MAX_EVENTS = 500      # a response of at most ~10 chunks never needs more; stops runaway streams
 
 
 class StreamFault(Exception):
@@ -483,9 +484,19 @@ def _guarded_fill(resp):
         raise
 
 
+def _prerender_value():
+    pre = CUR['r'].get('prerender')
+    return None if pre is None else pre[0]
+
+
 class WResource:
     def on_get(self, req, resp):
         if CUR['r'].get('via', 'responder') == 'responder':
+            if CUR['r'].get('prerender') is not None:
+                # the application looks at the rendered body (public API) and then changes its mind
+                resp.media = _prerender_value()
+                resp.render_body()
+                resp.media = None
             _guarded_fill(resp)
 
     on_head = on_post = on_options = on_put = on_get
@@ -494,6 +505,10 @@ class WResource:
 class AResource:
     async def on_get(self, req, resp):
         if CUR['r'].get('via', 'responder') == 'responder':
+            if CUR['r'].get('prerender') is not None:
+                resp.media = _prerender_value()
+                await resp.render_body()
+                resp.media = None
             _guarded_fill(resp)
 
     on_head = on_post = on_options = on_put = on_get
@@ -598,8 +613,9 @@ def classify(kind, r):
         return K_WSGI_LINE
     app_ct = r.get('ct') is not None and r['ct'][0] in ('prop', 'header', 'headers')
     if (kind == 'content-type-on-typeless' and code in M.TYPELESS and not app_ct and
-            r.get('text') is None and r.get('data') is None and
-            r.get('media', ['unset'])[0] == 'set' and r['media'][1] is not None and not custom_line):
+            ((r.get('text') is None and r.get('data') is None and
+              r.get('media', ['unset'])[0] == 'set' and r['media'][1] is not None) or r.get('prerender') is not None)
+            and not custom_line):
         # render_body() stores the default media type in resp.content_type while rendering media
         return K_MEDIA_CT
     return None
@@ -618,10 +634,11 @@ def run_case(rec, r):
     try:
         if stack == 'wsgi':
             env = W.make_environ(r['method'], path, headers=hdrs, body=body, file_wrapper=bool(r.get('fw')))
-            res = W.run_wsgi(app, env, fail_write_at=r.get('fail_at'))
+            res = W.run_wsgi(app, env, fail_write_at=r.get('fail_at'), max_chunks=MAX_EVENTS)
         else:
             scope = A.make_scope(r['method'], path, headers=hdrs)
-            res = A.run_asgi_http(app, scope, events=A.body_events(body), fail_send_at=r.get('fail_at'))
+            res = A.run_asgi_http(app, scope, events=A.body_events(body), fail_send_at=r.get('fail_at'),
+                                  max_events=MAX_EVENTS)
     finally:
         CUR['r'] = CUR['obs'] = None
     if obs.fill_exc is not None or obs.filled != 1:
@@ -793,7 +810,7 @@ def judge(rec, r, res, obs):
                 mon('close_once')
                 rec.count('close_once.' + log.kind)
                 if log.closes != 1:
-                    bad('stream-close-count', kind=log.kind, closes=log.closes, reads=log.reads)
+                    bad('stream-close-count', stream_kind=log.kind, closes=log.closes, reads=log.reads)
             else:
                 rec.count('stream_not_begun')
         elif log.begun:
@@ -852,6 +869,8 @@ def note_coverage(rec, r, res, obs):
     rec.count('via.' + r.get('via', 'responder'))
     if r.get('fw'):
         rec.count('wsgi.file_wrapper')
+    if r.get('prerender') is not None:
+        rec.count('prerender')
     st = r.get('stream')
     if st is not None and src == 'stream' and not M.is_bodiless(r):
         kind = st['kind']
@@ -964,7 +983,30 @@ def falsy_cases(stack):
                 for m in FALSY_MEDIA:
                     yield dict(base, media=['set', m], stream=st)
                 yield dict(base, media=['set', None], stream=st)       # media None == unset: the stream is the body
+                # the app renders once (public render_body()), then replaces the media: the last value is the body
+                yield dict(base, prerender=[{'stale': 1}], media=['set', {'fresh': [n]}])
+                yield dict(base, prerender=[['stale']], text='fresh t\xe9xt')
+                yield dict(base, prerender=[{'stale': 1}], stream=st)
                 yield dict(base, media=['set', None])
+
+
+def decor_cases(stack):
+    """Every header / cookie operation x way of filling in x (bearing, typeless) x (GET, HEAD)."""
+    n = 0
+    for via in ('responder', 'mw', 'sink'):
+        for status in (['int', 200], ['enum', 204], ['line', '404 Not Found']):
+            for method in ('GET', 'HEAD'):
+                base = {'stack': stack, 'method': method, 'status': status, 'text': None, 'data': None,
+                        'media': ['unset'], 'stream': None, 'sse': None, 'ct': None, 'cl': None, 'via': via}
+                for op in sorted(HEADER_OPS):
+                    n += 1
+                    yield dict(base, headers=[op], rc=RESP_CLASSES[n % 3], text='t' if n % 2 else None)
+                for op in sorted(COOKIE_OPS):
+                    n += 1
+                    yield dict(base, cookies=[op], rc=RESP_CLASSES[n % 3], data=b'd' if n % 2 else None)
+                yield dict(base, headers=sorted(HEADER_OPS)[:12], cookies=sorted(COOKIE_OPS))
+                yield dict(base, headers=[h for h in sorted(HEADER_OPS)[12:] if h != 'viewable_as'],
+                           cookies=sorted(COOKIE_OPS), media=['set', [1]])
 
 
 def fault_cases(stack, big):
@@ -1007,7 +1049,8 @@ def fault_cases(stack, big):
 
 
 def sse_fault_cases():
-    evs = [{'data': b'raw \xc3\xa9'}, {'text': ''}, None, {'comment': 'keep-alive'},
+    evs = [{'data': b'raw \xc3\xa9', 'text': 'not me', 'json': {'nor': 'me'}}, {'text': '', 'json': 1}, None,
+           {'comment': 'keep-alive'},
            {'json': [1, {'k': None}], 'event': 'e', 'event_id': 'id-1', 'retry': 0, 'comment': 'c'}, {}]
     for kind in ('agen', 'aiter'):
         for n in (0, 1, 3, len(evs)):
@@ -1135,6 +1178,9 @@ def gen_recipe(rng):
         r['order'] = order
     if rng.random() < 0.3:
         r['fail_at'] = rng.randint(0, 5)
+    if r['via'] == 'responder' and r['mt'] is None and rng.random() < 0.2 and (
+            r['ct'] is None or r['ct'][0] in ('none', 'set_then_none') or r['ct'][1] in JSON_CTS):
+        r['prerender'] = [rng.choice([{'stale': True}, 'stale', [0]])]
     return r
 
 
@@ -1158,7 +1204,7 @@ def run(rec):
     quick = rec.tier == 'quick'
     idx = 0
     for stack in ('wsgi', 'asgi'):
-        for gen in (grid_cases(stack), falsy_cases(stack), fault_cases(stack, big=not quick)):
+        for gen in (grid_cases(stack), falsy_cases(stack), decor_cases(stack), fault_cases(stack, big=not quick)):
             for r in gen:
                 idx += 1
                 if idx % rec.nshards != rec.shard:
@@ -1173,12 +1219,12 @@ def run(rec):
         do(rec, r)
     rec.exhaustive = True
     if rec.shard == 0:
-        rec.note('exhaustive over %d grid/falsy/fault-enumeration recipes (status x method x source subsets x presets; '
+        rec.note('exhaustive over %d grid/falsy/header-cookie/fault-enumeration recipes (status x method x source subsets x presets; '
                  'stream kind x chunk count x every raise index x every server-failure index)' % idx)
 
     rng = rec.rng
     n = 0
-    while rec.budget_ok(0.9):
+    while n < 400 or rec.budget_ok(0.9):      # a counted minimum, then whatever the budget allows
         for _ in range(40):
             r = gen_recipe(rng)
             do(rec, r)
@@ -1218,6 +1264,7 @@ def run(rec):
     for sk in ('int', 'line', 'digits', 'enum'):
         rec.floor('status_kind.' + sk, 50)
     rec.floor('random.cases', 200)
+    rec.floor('prerender', 20)
 
 
 # ---- replay
